@@ -5,7 +5,10 @@
    for durations always means: differ in what the wire carries (whole seconds for lifetimes,
    whole milliseconds for the reachable time / retransmit timer, truncated). *)
 From Coq Require Import Lia.
-From CR Require Import Model.Verify Model.VerifySpec Proofs.Verify Proofs.VerifySpec.
+From CR Require Import Model.Verify.
+From CR Require Import Model.VerifySpec.
+From CR Require Import Proofs.Verify.
+From CR Require Import Proofs.VerifySpec.
 Local Open Scope Z_scope.
 
 (* ---- the characterisation, for every label set at once: the multiset of reports is the
